@@ -7,6 +7,7 @@ import Revm.Props.C34
 import Revm.Proofs.EvmLinkStatic4
 import Revm.Proofs.EvmLinkGasInv4
 import Revm.Proofs.EvmLinkSame
+import Revm.Proofs.EvmLinkEther8
 /-! C01Link — the whole-transaction model `Revm.Model.Evm.transact` (C01) SATISFIES the component properties.
 
 `Evm.transact` (EvmTx / EvmFrame / EvmLoop / EvmHost) was written independently of the component models that carry the
@@ -19,7 +20,7 @@ Translations (`Proofs/EvmLink*.lean`): `tvCfg / tvBlock / tvTx / senderOf` (the 
 reads them), `gasEnv / frameRes / toIR` (the environment and the first frame's result as C09 reads them).
 
 Sections: 1 validation (C02) · 2 gas and fees (C09) · 3 frame depth (C07) · 4 the `Host` as a journal history, cold /
-warm (C34) · 5 static mode (C10).
+warm (C34) · 5 static mode (C10) · 6 ether conservation (C08).
 
 What is hypothesised and not proved here: `loadSender … = .ok …` (the journal can load the sender: no `unwrap` panic in
 the journal model, the code store knows the sender's code hash); for C34 the history `lockRun … = some l` leading to the
@@ -679,5 +680,75 @@ def FullStatement_static_frame_state_equal : Prop :=
     f.interp.isStatic = true → LoopInv (f :: rest) w → Static.BalOk w.db w.js →
     StepsAbove cfg rest.length (.run (f :: rest) w) n →
     ∀ stack' w', n = .run stack' w' → Static.WorldEq w.db w'.js w.js
+
+/-! ## 6. ether conservation (C08)
+
+C08 proves conservation for journal histories (`step_inv`: every operation of `Spec.JournalAbs` keeps the ledger
+invariant `BInv`) and for the fee legs around an execution that is only assumed to conserve (`tx_conserves`, hypothesis
+`hexec`). Here the execution is the whole EVM: every `World` / `Host` operation of `EvmHost`, every stage of
+`make_call_frame` / `make_create_frame` / `call_return` / `create_return` and every step of `run_the_loop` is ONE
+operation of `Spec.JournalAbs` on the world's journal (or leaves balances and balance entries alone), so C08's `step_inv`
+applies along any `Evm.runLoop` run (`Proofs.EvmLink.Pres`, `pres_answer`, `pres_steps`); `Evm.deductCaller` and the
+balance part of `Evm.finish` ARE `TxFeeLegs.deductCaller` / `postExecution` (`deductCaller_feeLegs`, `finish_feeLegs`);
+C08's hypotheses `Validated` and `GasOk` follow from C02 validation and from the gas loop invariant. -/
+
+open Revm.Spec.Ether in
+/-- LINK: the debit and the two credits of the whole-EVM model are the fee legs of C08, on the world's journal -/
+theorem evm_fee_legs_eq_txfeelegs (e : Evm.Env) (spec fg r7 : Nat) (isCreate : Bool) (res : Interp.ChildResult)
+    (w w' w3 w4 : World) (r : TxResult) :
+    (Evm.deductCaller e spec w = .ok w' →
+      TxFeeLegs.deductCaller w.db w.js spec (feeEnv e) = some w'.js ∧ w'.db = w.db) ∧
+    (Evm.finish e spec fg r7 isCreate res w3 = .ok (r, w4) →
+      TxFeeLegs.postExecution w3.db w3.js spec (feeEnv e) true (Evm.finalGas e spec fg r7 res).remaining
+        (Gas.spent (Evm.finalGas e spec fg r7 res)) (Gas.i64AsU64 (Evm.finalGas e spec fg r7 res).refunded)
+        = some w4.js ∧ w4.db = w3.db) :=
+  ⟨deductCaller_feeLegs, finish_feeLegs⟩
+
+open Revm.Spec.Ether Revm.Proofs.Ether in
+/-- LINK (C08 `step_inv` along the interpreter loop, no fuel in the statement): along ANY run of `run_the_loop`, if the
+accounts present at the end lie in the duplicate-free list `L`, the ledger invariant of C08 — the balances over `L`
+plus what the journal's self-destruct entries burnt is the base sum — is carried from the start to the end, and the
+backing store's accounts are not written -/
+theorem evm_loop_conserves_ether (L : List Nat) (B : Nat → Nat) (hn : L.Nodup) (hB : sumOver L B < W) (cfg : Cfg)
+    (n m : Next Journal.Checkpoint) (t : Steps cfg n m) (hK : KeysIn L (nextWorld m))
+    (h : BInv L B (absB (nextWorld n).db (nextWorld n).js)) :
+    BInv L B (absB (nextWorld m).db (nextWorld m).js) ∧ (nextWorld m).db.basic = (nextWorld n).db.basic :=
+  ⟨(pres_steps hn hB t).ei hK h, (pres_steps hn hB t).dbb⟩
+
+open Revm.Spec.Ether Revm.Proofs.Ether in
+/-- COROLLARY (C08 `tx_conserves` on `Evm.transact`): **the whole EVM conserves ether.** For every executed
+transaction, from a journal without balance entries (`JB w.js = []`: the fresh journal `Evm::transact` starts on), with
+every balance a 256-bit word, `L` a duplicate-free address list that contains every account present in the final
+journal state, and the sum of the initial balances over `L` below 2^256 (C08's hypothesis):
+
+  Σ_L balances(after) + (effective price − beneficiary's price) · gas_used + blob fee + burnt by self-destructs
+    = Σ_L balances(before).
+
+`burnt w'.js` is the ether that SELFDESTRUCTs naming themselves as target destroyed (C08 `burnt`); before London
+`burntPerGas` is 0. `L`: the accounts present in the final journal state, not `World.addrs` — see the report. -/
+theorem transact_conserves_ether (fuel : Nat) (w w' : World) (e : Evm.Env) (spec : Nat) (r : TxResult) (L : List Nat)
+    (h : Evm.transact fuel w e spec = .ok (.executed r, w'))
+    (hL : e.tx.gasLimit < U64) (hn : L.Nodup) (hK : KeysIn L w')
+    (hok : BalOk w.db w.js) (hj : JB w.js = []) (hSum : total L w.db w.js < W) :
+    total L w'.db w'.js + burntPerGas (GasCalc.canon spec) (feeEnv e) * r.gasUsed
+      + dataFee (GasCalc.canon spec) (feeEnv e) + burnt w'.js = total L w.db w.js :=
+  transact_conserves fuel w w' e spec r L h hL hn hK hok hj hSum
+
+open Revm.Spec.Ether in
+/-- the hypotheses on the initial world hold for the sample world (fresh journal), and the ledger equation of the
+sample transfer (21000 gas at price 10 with base fee 7: 147000 wei burnt) evaluates -/
+example : JB sampleWorld.js = [] := rfl
+
+open Revm.Spec.Ether in
+/-- the ledger equation on a completed run, as a check -/
+def ledgerCheck (fuel : Nat) (w : World) (e : Evm.Env) (spec : Nat) (L : List Nat) (perGasBurn : Nat) : Bool :=
+  match Evm.transact fuel w e spec with
+  | .ok (.executed r, w') =>
+    decide (total L w'.db w'.js + burntPerGas spec (feeEnv e) * r.gasUsed + dataFee spec (feeEnv e) + burnt w'.js
+        = total L w.db w.js) &&
+      decide (burntPerGas spec (feeEnv e) * r.gasUsed = perGasBurn)
+  | _ => false
+
+example : ledgerCheck 10 sampleWorld sampleEnv 17 [0xaa, 0xbb, 0] 147000 = true := by decide +kernel
 
 end Revm.Props.C01Link
